@@ -11,9 +11,10 @@ theorem rp_fuelFor_ge (depth : Nat) : Extracted.depthLimit + 1 ≤ fuelFor depth
   unfold fuelFor; omega
 
 /-- a property of the message `setFields` returns (for in-range draws) holds for what `generate` returns -/
-theorem rp_post_generate (S : Schema) (o : GenOpts) (E : List Int) (i : Nat) (ds : List Draw) (P : Val → Prop)
-    (h : ∀ rest, Post (setFields S o E (fuelFor 0) 0 i (emptyMsg S i) rest) (fun r tr => InR tr → P r.2)) :
-    Post (generate S o E i ds) (fun v tr => InR tr → P v) := by
+theorem rp_post_generate {p : Ev → Bool} (S : Schema) (o : GenOpts) (E : List Int) (i : Nat) (ds : List Draw)
+    (P : Val → Prop)
+    (h : ∀ rest, Post (setFields S o E (fuelFor 0) 0 i (emptyMsg S i) rest) (fun r tr => InRP p tr → P r.2)) :
+    Post (generate S o E i ds) (fun v tr => InRP p tr → P v) := by
   unfold generate
   refine rp_post_bind (Q1 := fun _ _ => True) (fun _ _ _ _ => trivial) (fun _ rest tr0 _ _ => ?_)
   refine rp_post_bind (h rest) (fun r rest' tr1 _ hr => ?_)
@@ -39,11 +40,11 @@ theorem rp_fine_generate (S : Schema) (o : GenOpts) (E : List Int) (i : Nat) (ds
     | .ok _ rest tr => rest = [] ∧ ds = tr.map Ev.draw
     | .stuck p w => (w = .wrongType ∨ w = .missing ∨ w = .leftover) ∧ p ≤ ds.length := by
   unfold generate
-  have hA : Fine (if (S.msg i).fields.isEmpty then (draw .bool ds).map (fun _ => ()) else R.ok () ds []) ds := by
+  have hA : Fine (if (S.msg i).fields.isEmpty then (draw .flag ds).map (fun _ => ()) else R.ok () ds []) ds := by
     split
     · exact rp_fine_map (rp_fine_draw _ _)
     · exact rp_fine_ok _ _
-  generalize (if (S.msg i).fields.isEmpty then (draw .bool ds).map (fun _ => ()) else R.ok () ds []) = A at hA
+  generalize (if (S.msg i).fields.isEmpty then (draw .flag ds).map (fun _ => ()) else R.ok () ds []) = A at hA
   cases A with
   | stuck p w =>
     simp only [R.bind]
@@ -70,20 +71,22 @@ theorem rp_fine_generate (S : Schema) (o : GenOpts) (E : List Int) (i : Nat) (ds
         refine ⟨by simp, ?_⟩
         rw [hA, hB]; simp; omega
 
-theorem rp_utf8_setFields (S : Schema) (o : GenOpts) (E : List Int) (fuel N depth i : Nat) (v : Val)
+theorem rp_utf8_setFields (S : Schema) (o : GenOpts) (E : List Int)
+    (hmap : ∀ w, o.mapper .string = some w → utf8Valid w.getBlob = true) (fuel N depth i : Nat) (v : Val)
     (ds : List Draw) : Post (setFields S o E fuel depth i v ds) (fun r tr => InR tr →
       utf8OK S N i v = true → utf8OK S N i r.2 = true) := by
   intro r rest tr h hin hu
   rw [rp_utf8OK_eq S N depth] at hu ⊢
-  exact rp_sp_setFields (rp_utf8_SpGen E) rp_utf8_SpZero S (rp_mpTrue_ok S) o (rp_mpTrue_step S o E)
+  exact rp_sp_setFields (rp_utf8_SpGen o E hmap) rp_utf8_SpZero S (rp_mpTrue_ok S) (rp_mpTrue_step S o E)
     fuel N depth i v ds r rest tr h hin (rp_spPre_of_spOK S (rp_mpTrue_ok S) hu)
 
-theorem rp_enum_setFields (S : Schema) (o : GenOpts) (E : List Int) (h0 : (0 : Int) ∈ E) (fuel N depth i : Nat)
+theorem rp_enum_setFields (S : Schema) (o : GenOpts) (E : List Int) (h0 : (0 : Int) ∈ E)
+    (hmap : ∀ w, o.mapper .enum = some w → enumDeclared E w = true) (fuel N depth i : Nat)
     (v : Val) (ds : List Draw) : Post (setFields S o E fuel depth i v ds) (fun r tr => InR tr →
       enumsOK S E N i v = true → enumsOK S E N i r.2 = true) := by
   intro r rest tr h hin hu
   rw [rp_enumsOK_eq S E N depth] at hu ⊢
-  exact rp_sp_setFields (rp_enum_SpGen E) (rp_enum_SpZero h0) S (rp_mpTrue_ok S) o (rp_mpTrue_step S o E)
+  exact rp_sp_setFields (rp_enum_SpGen o E hmap) (rp_enum_SpZero h0) S (rp_mpTrue_ok S) (rp_mpTrue_step S o E)
     fuel N depth i v ds r rest tr h hin (rp_spPre_of_spOK S (rp_mpTrue_ok S) hu)
 
 theorem rp_unknown_setFields (S : Schema) (o : GenOpts) (E : List Int) (fuel N depth i : Nat) (v : Val)
@@ -91,20 +94,20 @@ theorem rp_unknown_setFields (S : Schema) (o : GenOpts) (E : List Int) (fuel N d
       unknownOK S N i v = true → unknownOK S N i r.2 = true) := by
   intro r rest tr h hin hu
   rw [rp_unknownOK_eq S N depth] at hu ⊢
-  exact rp_sp_setFields (rp_unk_SpGen E) rp_unk_SpZero S (rp_unk_MpOK S) o (rp_unk_MpStep S o E)
+  exact rp_sp_setFields (rp_unk_SpGen o E) rp_unk_SpZero S (rp_unk_MpOK S) (rp_unk_MpStep S o E)
     fuel N depth i v ds r rest tr h hin (rp_spPre_of_spOK S (rp_unk_MpOK S) hu)
 
 /-- everything `setFields` preserves, in one statement (`N`: the typing fuel of the message) -/
-theorem rp_wf_setFields (S : Schema) (o : GenOpts) (E : List Int) (h0 : (0 : Int) ∈ E)
+theorem rp_wf_setFields (S : Schema) (o : GenOpts) (E : List Int) (h0 : (0 : Int) ∈ E) (hmap : MapperOK E o)
     (fuel N depth i : Nat) (v : Val) (ds : List Draw) (hN : Extracted.depthLimit + 2 ≤ N + depth) :
     Post (setFields S o E fuel depth i v ds) (fun r tr => InR tr →
       msgOK S false N i v = true → utf8OK S N i v = true → enumsOK S E N i v = true → unknownOK S N i v = true →
       msgOK S false N i r.2 = true ∧ utf8OK S N i r.2 = true ∧ enumsOK S E N i r.2 = true ∧
         unknownOK S N i r.2 = true) := by
   intro r rest tr h hin hm hu he hk
-  exact ⟨rp_ok_setFields S o E fuel N depth i v ds hN hm r rest tr h,
-    rp_utf8_setFields S o E fuel N depth i v ds r rest tr h hin hu,
-    rp_enum_setFields S o E h0 fuel N depth i v ds r rest tr h hin he,
+  exact ⟨rp_ok_setFields S o hmap.typed E fuel N depth i v ds hN hm r rest tr h,
+    rp_utf8_setFields S o E hmap.utf8 fuel N depth i v ds r rest tr h hin hu,
+    rp_enum_setFields S o E h0 hmap.enum fuel N depth i v ds r rest tr h hin he,
     rp_unknown_setFields S o E fuel N depth i v ds r rest tr h hin hk⟩
 
 theorem rp_utf8OK_emptyMsg (S : Schema) (n i : Nat) : utf8OK S n i (emptyMsg S i) = true := by
